@@ -17,7 +17,22 @@ def text(name):
     """fixture text; 'name~-OD1-OD2@25' is the fixture `name` without the atoms OD1 and OD2 of residue 25
     (an incompletely modelled residue)"""
     if name not in _TXT:
-        if '|' in name:
+        if '$' in name:
+            # 'name$25': residue 25 becomes the C-terminus: the following residue's N is rewritten as its OXT, everything after is dropped
+            base, resnum = name.split('$', 1)
+            out, done = [], False
+            for l in text(base).split('\n'):
+                if not l.startswith('ATOM') or done:
+                    continue
+                n = int(l[22:26])
+                if n <= int(resnum):
+                    out.append(l)
+                    last = l
+                elif l[12:16].strip() == 'N':
+                    out.append(l[:12] + ' OXT' + l[16:17] + last[17:27] + l[27:76] + ' O' + l[78:])
+                    done = True
+            _TXT[name] = '\n'.join(out) + '\nTER   \n'
+        elif '|' in name:
             # 'name|BC@37': the atoms of residue 37 exist only as alternate locations B and C (C displaced by (0.3, 0.2, -0.1));
             # everything else has no alternate-location tag: three conformations A, B, C, the first one lacking the residue
             base, spec = name.split('|', 1)
